@@ -173,7 +173,9 @@ fn dispatch(cfg: &Cfg, rep: &mut Report) {
         "C08" => props::c08::run(cfg, rep),
         "C09" => props::c09::run(cfg, rep),
         "C10" => props::c10::run(cfg, rep),
+        "C14" => props::c14::run(cfg, rep),
         "C15" => props::c15::run(cfg, rep),
+        "C19" => props::c19::run(cfg, rep),
         "C20" => props::c20::run(cfg, rep),
         other => {
             if let Some(spec) = props::diff::spec_for(other) {
@@ -194,7 +196,9 @@ fn dispatch_replay(cfg: &Cfg, kind: &str, payload: &str, rep: &mut Report) {
         "C08" => props::c08::replay(payload, rep),
         "C09" => props::c09::replay(payload, rep),
         "C10" => props::c10::replay(kind, payload, rep),
+        "C14" => props::c14::replay(payload, rep),
         "C15" => props::c15::replay(kind, payload, rep),
+        "C19" => props::c19::replay(payload, rep),
         "C20" => props::c20::replay(kind, payload, rep),
         other => {
             if let Some(spec) = props::diff::spec_for(other) {
